@@ -91,6 +91,12 @@ fn main() {
         writeln!(pool, "  ({pkg:?}, {name:?}, &{methods:?}),").unwrap();
     }
     writeln!(pool, "];").unwrap();
+    // a concrete service type for `add_optional_service(None)`
+    {
+        let (_, name, _) = POOL[0];
+        let sn = naive_snake_case(name);
+        writeln!(pool, "pub type AnyServer = p0::{sn}_server::{name}Server<{ty}::Handler>;").unwrap();
+    }
     // the NAME the generated server advertises
     writeln!(pool, "pub fn advertised_name(i: usize) -> &'static str {{ match i {{").unwrap();
     for (i, (_, name, _)) in POOL.iter().enumerate() {
